@@ -39,6 +39,24 @@ CHECKS.update({
    text="All texts over 9 directive look-alike tokens (<=2 tokens x <=2/3 lines and <=3 tokens x <=1/2 lines): directive-free ones must be reproduced verbatim (LF/CRLF, final newline, option); every admissible text is round-tripped through its write-escape with and without a stored tag in scope; on the C01 space ordinary lines must appear in order.",
    ref="4.7, 5/C16", note=E_NOTE),
 })
+H_NOTE = ("Trusted: the OS file system (tmpfs); runs use the controller's canonical schedule (schedules belong to C02-C05); Fresh(sources) is computed "
+          "differentially by the implementation itself on a pristine copy; four hand-written projects (solo, chain, errsrc, nested) with decoy files.")
+H_TECH = "explicit-state breadth-first search over operation histories (txtpp runs x edits x tamperings) with state de-duplication on tree content; invariants evaluated on every transition of the real implementation"
+CHECKS.update({
+ "C06": dict(engine="H", technique=H_TECH, ref="4.6, 5/C06", note=H_NOTE,
+   text="BFS to depth 2 (quick) / 3-4 (thorough) over histories of {build, needed, verify, clean} x input selections x trailing-newline flag, source edits and 11 kinds of tampering of each generated file, from the pristine and the freshly built tree: on every verify transition, success iff every output of the processed sources and their dependencies equals what a pristine build writes now; outputs keep bytes, inode and mtime."),
+ "C07": dict(engine="H", technique=H_TECH, ref="4.6, 5/C07", note=H_NOTE + " Known finding F4 (clean does not follow dependencies) is listed in known_findings.json.",
+   text="Same search: every clean transition succeeds (also with erroneous sources), runs no command (marker files), creates nothing, deletes no .txtpp file and touches only outputs/temp targets of the named sources; from a freshly built state, clean of the same inputs restores the pre-build tree exactly."),
+ "C08": dict(engine="H + K", technique=H_TECH + "; crash points enumerated with strace fault injection", ref="4.6, 5/C08", note=H_NOTE,
+   text="Same search plus every byte-prefix of every generated file of project solo: every build transition gives the verdict and the bytes of a build from a pristine tree with the same sources, whatever was at the generated paths (stale, truncated, non-UTF-8, absent)."),
+ "C09": dict(engine="H", technique=H_TECH, ref="4.6, 5/C09", note=H_NOTE,
+   text="Same search: every --needed transition is paired with a normal build and a verify from a copy of the same state: same verdict and bytes; outputs whose content was already correct keep inode and sentinel mtime; temp targets already correct are not rewritten by build, needed or verify; stale ones are brought up to date."),
+ "C10": dict(engine="H", technique=H_TECH, ref="4.6, 5/C10", note=H_NOTE,
+   text="Every transition of the search, all four modes, successful and failing runs: the set of paths whose existence, bytes, inode or mtime changed is a subset of the outputs and temp targets of the processed sources (decoys at near-miss names in every directory); verify leaves outputs untouched; clean creates nothing."),
+ "C17": dict(engine="E-conf", technique="exhaustive enumeration of a finite configuration space, each configuration executed on the real library (in a child process with the required cwd) or the production binary",
+   ref="4.7, 5/C17", note="Trusted: sh, bash, pwd -P. TXTPP_FILE 'designates' the source if it resolves to it as absolute path, relative to the base directory, or relative to the command's directory (Q5).",
+   text="depth 0..3 x {library with 4 base-dir/cwd relations, CLI} x {default shell, bash -c, an argv-echo script} x {3 command shapes, 3 exit codes} (360 configurations) plus the TXTPP_FILE guard of the binary in 4 modes and a source that calls txtpp: working directory, TXTPP_FILE, the single joined argument seen by the shell, stdout splicing and exit-status handling."),
+})
 NOT_YET = {}
 props = [json.loads(l) for l in open("/verif/properties.jsonl")]
 checks, na = [], []
@@ -72,6 +90,8 @@ m = {
  },
  "engines": [
    {"name": "E-lines / U-gram / U-tag", "path": "/verif/harness/src/model.rs, elines.rs, elines2.rs, gram.rs, tags.rs", "serves_properties": ["C01", "C12", "C13", "C14", "C15", "C16"], "kind_free_text": "bounded-exhaustive input enumeration against a reference state machine, all traces replayed on the real code"},
+   {"name": "H", "path": "/verif/harness/src/hist.rs", "serves_properties": ["C06", "C07", "C08", "C09", "C10"], "kind_free_text": "BFS over operation histories of a project tree with state dedup; every transition executes the real txtpp"},
+   {"name": "E-conf", "path": "/verif/harness/src/conf.rs", "serves_properties": ["C17"], "kind_free_text": "exhaustive configuration enumeration"},
    {"name": "S", "path": "/verif/harness/src/ctl.rs, sched.rs", "serves_properties": ["C02", "C03", "C05"], "kind_free_text": "controlled scheduler behind txtpp's verif hooks + DFS over task completion orders on the real Txtpp::run"},
  ],
  "checks": checks,
